@@ -247,6 +247,24 @@ def limits_and_unparse(ck, results, rng, frac=1.0):
                              dict(replay, relation="parse(print_ast(d)) == d", printed=printed))
 
 
+RESERVED = ["true", "false", "null", "on", "implements", "repeatable", "extend", "query", "mutation",
+            "subscription", "fragment", "schema", "scalar", "type", "interface", "union", "enum", "input",
+            "directive", "QUERY", "BOGUS"]
+
+
+def name_mutants(lexemes, rng, k):
+    """Replace a name lexeme by a reserved word / keyword (the `on`, true|false|null, keyword rules)."""
+    idx = [i for i, lx in enumerate(lexemes) if lx and (lx[0].isalpha() or lx[0] == "_")]
+    out = []
+    for _ in range(k):
+        if not idx:
+            break
+        l = list(lexemes)
+        l[rng.choice(idx)] = rng.choice(RESERVED)
+        out.append(l)
+    return out
+
+
 def mutants(lexemes, rng, k):
     out = []
     pool = TOK_ALPHA + ["implements", "repeatable", "schema", "scalar", "union", "enum", "input", "directive",
@@ -336,7 +354,7 @@ def run(tier):
     t1 = time.time()
     b = Batch(ck, "gen")
     docs = []
-    ndocs = 60 if quick else 600
+    ndocs = 100 if quick else 600
     for (xfa, xdd) in FLAGS:
         for j in range(ndocs):
             g = gen_doc.Gen(rng, depth=rng.choice([1, 2, 2, 3]), experimental=False)
@@ -384,7 +402,7 @@ def run(tier):
     for (lex, xfa, xdd) in docs:
         if len(lex) > 160:
             continue
-        for l in mutants(lex, rng, 6 if quick else 10):
+        for l in mutants(lex, rng, 6 if quick else 10) + name_mutants(lex, rng, 6 if quick else 10):
             b.add(0, gen_doc.join_min(l), None, xfa, xdd)
     res_f = b.run()
     limits_and_unparse(ck, res_f, rng, frac=0.3)
